@@ -131,10 +131,16 @@ def run_case(ctx, g, rng):
     meta = rng.choice(["ns", "p", "x_", "ns1", "", "ns", " ns", "ns "])
     conv = None
     if rng.random() < 0.35:
-        recs = [spec.Rec("k", "http://x/a_", (), ("http://x/b#",) if rng.random() < 0.5 else (), None)]
+        # the supplied converter's own names are its own business - sometimes they look like the names discover hands
+        # out (a converter that is itself the result of an earlier discovery round)
+        k, j, ksyn = "k", "j", ()
         if rng.random() < 0.4:
-            recs.append(spec.Rec("j", "http://y#", (), (), None))
-        conv = api.Converter([gen.mk_record(api, r) for r in recs])
+            k, j = meta + str(rng.randint(1, 3)), meta + str(rng.randint(4, 5))
+            ksyn = (meta + "3",) if k != meta + "3" and rng.random() < 0.5 else ()
+        recs = [spec.Rec(k, "http://x/a_", ksyn, ("http://x/b#",) if rng.random() < 0.5 else (), None)]
+        if rng.random() < 0.4:
+            recs.append(spec.Rec(j, "http://y#", (), (), None))
+        conv, _how = gen.build(api, recs, ":", rng)
     kw = {"cutoff": cutoff, "metaprefix": meta}
     if delims is not None:
         kw["delimiters"] = delims if rng.random() < 0.7 else tuple(delims)
